@@ -13,7 +13,7 @@ RULE = ('Exhaustive sweeps + Hypothesis: (a) for every request class that predic
         'its port must sum to exactly the reply frame, no read may come back short (= a timeout in real life), no byte may be '
         'left unread, for normal and exception replies; (c) base ADU size / exception length of every framing incl. TLS equal '
         'the reference frame overheads. Non-trivial: bit quantity >=2 and not a multiple of 8, any exception reply, any '
-        'transfer; distinct by SHA-1. Serial clients are also built with generated options: handle_local_echo on a line that echoes every written byte, strict on/off, baud rate 9600..115200.')
+        'transfer; distinct by SHA-1. Serial clients are also built with generated options: handle_local_echo on a line that echoes every written byte, strict on/off, baud rate 9600..115200; the reply may reach the port in generated bursts 3 ms apart.')
 ASSUMPTIONS = ['requests that by specification get no reply (Force Listen Only Mode) are excluded',
                'binary transfers whose reply contains delimiter bytes are excluded (KF-BINARY-FRAMER-DELIMITER-BYTES)']
 BUDGET = {'quick': 1500, 'thorough': 6000}
@@ -113,6 +113,9 @@ def _case(draw):
             'after_silence': draw(st.sampled_from([False, False, True])),
             # the judged reply may come on a retransmission (retry_on_empty): the sizing of the second attempt is judged
             'unanswered_first': draw(st.sampled_from([0, 0, 0, 1, 2])),
+            # the reply may reach the port in bursts a few milliseconds apart (cut positions in bytes): a read that is
+            # issued while only a part has arrived still has to wait for the rest of the predicted length
+            'bursts': draw(st.sampled_from([None, None, None, [2], [3], [1, 4], [64], [2, 5, 9], [4, 200]])),
             'serial': draw(transports.serial_options())}
 
 
@@ -217,6 +220,7 @@ class ServerPeer(transports.Peer):
         self.replies = []
         self.silent = False
         self.skip = 0          # number of transmissions that stay unanswered before the peer answers (retries)
+        self.bursts = None     # byte positions at which the reply is cut into bursts 3 ms apart
 
     def on_write(self, conn, data):
         out = []
@@ -239,6 +243,11 @@ class ServerPeer(transports.Peer):
         except Exception:
             self.framer.resetFrame()
         self.replies.extend(out)
+        if self.bursts and len(out) == 1:
+            fr = out[0]
+            cuts = sorted(set(c for c in self.bursts if 0 < c < len(fr)))
+            parts = [fr[a:b] for a, b in zip([0] + cuts, cuts + [len(fr)])]
+            return [(0.003 * i, part) for i, part in enumerate(parts)]
         return [(0.0, fr) for fr in out]
 
 
@@ -269,6 +278,9 @@ def _run_xfer(case):
                 w.clock.sleep(1.0)
             req = kinds.build(kind, f, unit=case['uid'])
             peer.skip = nskip
+            if case.get('bursts') and hasattr(req, 'get_response_pdu_size'):
+                peer.bursts = case['bursts']
+                labels.append('reply-in-bursts')
             result = client.execute(req)
         except transports.StepBudgetExceeded as e:
             return Outcome([Disc('no-termination', '%s %s: %s' % (framing, kind, e))], labels, True)
